@@ -1,12 +1,5 @@
-mod case;
-mod enga;
-mod engb;
-mod flavor;
-mod props;
-mod runner;
-mod types;
-
-use runner::*;
+use rv::props;
+use rv::runner::*;
 use std::path::{Path, PathBuf};
 
 macro_rules! with_prop {
@@ -76,7 +69,16 @@ fn main() {
                     supervise(pi, SupArgs { tier, seed, workers, cases_override }, replay_files(id), &|v| simplify_one::<$p>(v))
                 }};
             }
-            let code = with_prop!(id, go!());
+            let (mut code, mut ev) = with_prop!(id, go!());
+            if id == "C04" && code == 0 && (tier == Tier::Thorough || std::env::var("RV_FUZZ").is_ok()) {
+                let runs: u64 = std::env::var("RV_FUZZ_RUNS").ok().and_then(|s| s.parse().ok()).unwrap_or(if tier == Tier::Thorough { 150_000 } else { 20_000 });
+                let (c2, fz) = fuzz_stage(id, seed, runs, 16);
+                if let Some(c) = ev.get_mut("coverage") {
+                    c["fuzz_stage"] = fz;
+                }
+                write_evidence(id, &ev);
+                code = c2;
+            }
             std::process::exit(code);
         }
         "worker" => {
